@@ -68,6 +68,11 @@ impl Allocation {
 impl Drop for Allocation {
     #[track_caller]
     fn drop(&mut self) {
+        // The model is being torn down by a panic, nothing left to track.
+        if rt::Scheduler::is_tearing_down() {
+            return;
+        }
+
         let location = location!();
         rt::execution(|execution| {
             let state = self.state.get_mut(&mut execution.objects);
